@@ -11,6 +11,7 @@ import (
 )
 
 const (
+	regionKeyPrefix = "raft/r/"
 	storeKeyPrefix  = "raft/s/"
 	weightKeyPrefix = "schedule/store_weight/"
 )
@@ -130,6 +131,27 @@ func (e *env) stored() (snap, map[uint64]bool, error) {
 	return out, orphanWeights, nil
 }
 
+// storedRegions = raw scan of the region records: region id -> stores holding a peer.
+func (e *env) storedRegions() (map[uint64]map[uint64]bool, error) {
+	out := map[uint64]map[uint64]bool{}
+	for k, v := range e.kv.Dump() {
+		id, tail, ok := idFromKey(k, regionKeyPrefix)
+		if !ok || tail != "" {
+			continue
+		}
+		rg := &metapb.Region{}
+		if err := rg.Unmarshal([]byte(v)); err != nil {
+			return nil, fmt.Errorf("stored region %s does not parse: %v", k, err)
+		}
+		ps := map[uint64]bool{}
+		for _, p := range rg.GetPeers() {
+			ps[p.GetStoreId()] = true
+		}
+		out[id] = ps
+	}
+	return out, nil
+}
+
 // model: what the statement needs to be remembered across steps.
 type model struct {
 	declared    map[uint64]bool            // id was declared physically destroyed (sticky while the record exists)
@@ -137,6 +159,10 @@ type model struct {
 	conf        map[uint64]uint64          // region -> last conf_ver used
 	dirtyMeta   map[uint64]bool            // stored meta may differ from served because of an injected fault
 	dirtyWeight map[uint64]bool
+	// classification of a wrong burial only (kind of history): store not touched by an acknowledged
+	// region heartbeat since the last reload / since it was registered with peers already reported
+	afterReload map[uint64]bool
+	lateReg     map[uint64]bool
 	// bookkeeping of requested values (counted, never judged)
 	addr   map[uint64]string
 	weight map[uint64][2]float64
@@ -146,7 +172,7 @@ func newModel() *model { m := &model{}; m.reset(); return m }
 
 func (m *model) reset() {
 	*m = model{declared: map[uint64]bool{}, regions: map[uint64]map[uint64]bool{}, conf: map[uint64]uint64{},
-		dirtyMeta: map[uint64]bool{}, dirtyWeight: map[uint64]bool{}, addr: map[uint64]string{}, weight: map[uint64][2]float64{}}
+		dirtyMeta: map[uint64]bool{}, dirtyWeight: map[uint64]bool{}, afterReload: map[uint64]bool{}, lateReg: map[uint64]bool{}, addr: map[uint64]string{}, weight: map[uint64][2]float64{}}
 }
 
 func (m *model) regionCount(store uint64) int {
@@ -199,6 +225,9 @@ func (e *env) runStep(hs *historyState, st *step, f *faultPlan, md *model) strin
 		preRegions[id] = md.regionCount(id)
 	}
 	st.Before = stateName(prev[st.ID])
+	if st.Cmd == "reload" {
+		f = nil // a reload only reads the store records
+	}
 	st.Fault = f
 	e.kv.ResetLog()
 	e.kv.ResetFaults()
@@ -250,11 +279,62 @@ func (e *env) runStep(hs *historyState, st *step, f *faultPlan, md *model) strin
 		r.Violation("panic-in-store-command:"+st.Cmd+":"+panicSite(st.Panic), "pd panicked inside a store lifecycle command: "+st.Panic, wit())
 	}
 
+	// a reload serves what is stored: records whose stored form differs from the served one because
+	// of an injected fault legitimately change here (not judged); the model's placements become
+	// what the stored region records say (a region save may have been failed by a fault)
+	adopted := map[uint64]bool{}
+	if st.Cmd == "reload" {
+		if !ok {
+			return "lost"
+		}
+		for id := range md.dirtyMeta {
+			adopted[id] = true
+		}
+		md.dirtyMeta, md.dirtyWeight = map[uint64]bool{}, map[uint64]bool{}
+		for id := range orphanW {
+			if cur[id] == nil {
+				md.dirtyWeight[id] = true // kept weights of a deleted record stay out of the comparison (id re-use)
+			}
+		}
+		sr, rerr := e.storedRegions()
+		if rerr != nil {
+			r.Violation("stored-record-unreadable", rerr.Error(), wit())
+			return "x"
+		}
+		for _, rid := range regionIDs {
+			if fmt.Sprint(sortedKeys(sr[rid])) != fmt.Sprint(sortedKeys(md.regions[rid])) {
+				r.Count("reload_model_placement_reset_to_stored", 1)
+			}
+			if sr[rid] == nil {
+				delete(md.regions, rid)
+			} else {
+				md.regions[rid] = sr[rid]
+			}
+		}
+		md.afterReload = map[uint64]bool{}
+		for id := range cur {
+			md.afterReload[id] = true
+		}
+		for id := range cur {
+			if n, m := e.rc.GetStoreRegionCount(id), md.regionCount(id); n != m {
+				r.Count("reload_region_count_differs_from_stored_counted_only", 1)
+			}
+		}
+	}
+
 	// region placement bookkeeping (acknowledged placements only)
 	if st.Cmd == "region" && ok {
 		ps := map[uint64]bool{}
 		for _, p := range st.Peers {
 			ps[p] = true
+		}
+		for id := range md.regions[st.Region] {
+			delete(md.afterReload, id)
+			delete(md.lateReg, id)
+		}
+		for id := range ps {
+			delete(md.afterReload, id)
+			delete(md.lateReg, id)
 		}
 		md.regions[st.Region] = ps
 		r.Count("region_placements_acknowledged", 1)
@@ -270,9 +350,22 @@ func (e *env) runStep(hs *historyState, st *step, f *faultPlan, md *model) strin
 	}
 	for id := range ids {
 		p, c := prev[id], cur[id]
+		if adopted[id] {
+			r.Count("reload_adopted_stored_record_after_fault", 1)
+			if c == nil {
+				delete(md.declared, id)
+			} else if c.Destroyed {
+				md.declared[id] = true
+			}
+			continue
+		}
 		switch {
 		case p == nil && c != nil:
 			r.Count("record_created", 1)
+			if md.regionCount(id) > 0 {
+				md.lateReg[id] = true
+				r.Count("store_registered_after_its_peers_were_reported", 1)
+			}
 			if c.Destroyed {
 				md.declared[id] = true
 			}
@@ -316,7 +409,13 @@ func (e *env) runStep(hs *historyState, st *step, f *faultPlan, md *model) strin
 						// territory (C07), not judged here
 						r.Count("skipped_ambiguous_region_count", 1)
 					} else {
-						r.Violation("buried-with-regions:"+st.Cmd, fmt.Sprintf("store %d became tombstone by %s while %d regions have a peer on it", id, st.Cmd, n), wit())
+						kind := "steady"
+						if md.afterReload[id] {
+							kind = "after-reload"
+						} else if md.lateReg[id] {
+							kind = "peers-reported-before-registration"
+						}
+						r.Violation("buried-with-regions:"+st.Cmd+":"+kind, fmt.Sprintf("store %d became tombstone by %s while %d regions have a peer on it (%s)", id, st.Cmd, n, kind), wit())
 					}
 				} else {
 					r.Count("buried_while_empty", 1)
@@ -365,6 +464,15 @@ func (e *env) runStep(hs *historyState, st *step, f *faultPlan, md *model) strin
 		}
 		if fmt.Sprint(before[a]) == fmt.Sprint(l) {
 			r.Count("address_sharing_persists", 1) // reported at the step that created it
+			continue
+		}
+		amb := false
+		for _, id := range l {
+			amb = amb || adopted[id]
+		}
+		if amb {
+			// an address written by a lost-ack put became served by the reload
+			r.Count("skipped_ambiguous_address_after_lost_ack_reload", 1)
 			continue
 		}
 		states := ""
